@@ -421,6 +421,45 @@ def operator_coverage(repo, ops, rule='E6e'):
     return out
 
 
+def arithmetic_spelling(repo, rule='E6e'):
+    """every binary operator on pairs of small integral numbers, each operand spelled as host int and as float: the four results must be equal
+    -> (n evaluations, problems)"""
+    mod = repo.module('runtime')
+    func = mod.funcs.get('evaluate_expression')
+    it = EvalInterp(repo, mod, rule)
+    problems, n = [], 0
+    ops = ['+', '-', '*', '/', '%', '**', '==', '!=', '<', '<=', '>', '>=', '&&', '||']
+    nums = [-7, -3, -1, 0, 1, 2, 3, 7]
+    for op in ops:
+        for a in nums:
+            for b in nums:
+                if op == '**' and (abs(b) > 3 or (a == 0 and b < 0)):
+                    continue
+                if op in ('/', '%') and b == 0:
+                    continue
+                outs = {}
+                for sa_, sb_ in ((int, int), (int, float), (float, int), (float, float)):
+                    n += 1
+                    it.behaviour, it.truths, it.cmp_operands, it.free_compare = {}, {}, None, False
+                    expr = {'binary': {'op': op, 'left': {'number': sa_(a)}, 'right': {'number': sb_(b)}}}
+                    try:
+                        got = it.evaluate(func, build(expr), None, ADict({}), True, 'off')
+                    except (Unrecognised, HostTruth) as exc:
+                        got = ('undecided', str(exc)[:60])
+                    outs[(sa_.__name__, sb_.__name__)] = got
+                vals = list(outs.values())
+                if any(v[0] == 'undecided' for v in vals):
+                    problems.append(('undecided', f'{a} {op} {b}: {[v for v in vals if v[0] == "undecided"][0][1]}'))
+                    continue
+                base = vals[0]
+                for k, v in outs.items():
+                    same = (v[0] == base[0]) and (v[1] == base[1] if v[0] == 'value' else True) and (isinstance(v[1], bool) == isinstance(base[1], bool) if v[0] == 'value' else True)
+                    if not same:
+                        problems.append(('spelling', f'{a} {op} {b} evaluates to {_fmt(base)} when both operands are host ints and to {_fmt(v)} when they are spelled {k[0]} {op} {k[1]}'))
+                        break
+    return n, problems
+
+
 WANT_NUMBERS = {'+': 9.0, '-': 3.0, '*': 18.0, '/': 2.0, '%': 0.0, '**': 216.0, '==': False, '!=': True, '<': False, '<=': False, '>': True, '>=': True, '&&': 3.0, '||': 6.0}
 
 
